@@ -607,9 +607,10 @@ Proof.
 Qed.
 Theorem reindex_like_wf tmpl a r : WF a -> reindex_like tmpl a = Ok r -> WF r.
 Proof. intros Hw H. eapply reindex_like_go_wf; eassumption. Qed.
-Theorem unflatten_wf_plain a : WF a -> Forall (fun ax => amem ax = []) (axes a) -> WF (unflatten a).
+Theorem unflatten_wf_plain a r : WF a -> Forall (fun ax => amem ax = []) (axes a) -> unflatten a = Ok r -> WF r.
 Proof.
-  intros [[Hs Hd] Hn] Hp. unfold unflatten. rewrite (C11_proofs.unflatten_axes_plain _ Hp).
+  intros [[Hs Hd] Hn] Hp H. unfold unflatten in H. rewrite (C11_proofs.unflatten_axes_plain _ Hp) in H.
+  destruct (negb _); [discriminate|]. injection H as <-.
   split; [split; simpl; [reflexivity | rewrite Hs; exact Hd] | exact Hn].
 Qed.
 
